@@ -558,6 +558,44 @@ def run_nextrule_case(p):
     return None
 
 
+def run_predform_shared_case(p):
+    """C13: ONE From(d) object handed to two terms of different types: each term ranges over the members of d that are
+    instances of ITS type; the From object (the caller's) still holds d afterwards"""
+    from entity_query_language import symbolic_mode, an, set_of, entity, From
+    O.reset_registry()
+    rng = random.Random(p['seed'])
+    mk = [lambda: O.PBase(rng.choice('ab'), rng.choice([1, 2])), lambda: O.PSub(rng.choice('ab'), rng.choice([1, 2]), 5),
+          lambda: O.POther(rng.choice('ab'), rng.choice([1, 2]))]
+    dom = [rng.choice(mk)() for _ in range(rng.choice([3, 4, 5, 6]))]
+    T1, T2 = rng.sample([O.PBase, O.PSub, O.POther], 2)
+    op = rng.choice(['eq', 'ne', 'le'])
+    fs = rng.choice([None, None, None, 1, 2])          # an additional field constraint on the second term, or none
+    only_b = rng.random() < 0.3
+    try:
+        with symbolic_mode():
+            src = From(dom)
+            a = T1(src)
+            b = T2(src) if fs is None else T2(src, size=fs)
+            q = an(entity(b, O.OPS[op](b.size, a.size))) if only_b else an(set_of([a, b], O.OPS[op](a.size, b.size)))
+        rows = list(q.evaluate())
+    except Exception as e:  # noqa
+        return {'exception': repr(e), 'trace': traceback.format_exc(limit=4), 'signature_kind': 'exception'}
+    if src.domain is not dom:
+        return {'what': 'the From object that was passed in no longer holds the supplied domain', 'signature_kind': 'from-object-modified'}
+    A = [o for o in dom if isinstance(o, T1)]
+    B = [o for o in dom if isinstance(o, T2) and (fs is None or o.size == fs)]
+    if only_b:
+        got = sorted(set(dom.index(r) for r in rows))
+        want = sorted(set(dom.index(y) for y in B if any(O.OPS[op](y.size, x.size) for x in A)))
+    else:
+        got = sorted((dom.index(r[a]), dom.index(r[b])) for r in rows)
+        want = sorted((dom.index(x), dom.index(y)) for x in A for y in B if O.OPS[op](x.size, y.size))
+    if got != want:
+        return {'types': (T1.__name__, T2.__name__), 'op': op, 'second_term_size': fs,
+                'domain': repr([(type(o).__name__, o.name, o.size) for o in dom]), 'got': got, 'want': want, 'signature_kind': 'mismatch'}
+    return None
+
+
 def run_empty_unselected_case(p):
     """C02 with an EMPTY domain: a query over 2-3 variables, one of which ranges over an empty domain and is not selected.
     The Cartesian product of the domains is empty, so no assignment satisfies the condition and no row is returned -
@@ -1356,6 +1394,8 @@ def _run_case(p):
         return run_subquery_operand_case(p)
     if p.get('kind') == 'nextrule':
         return run_nextrule_case(p)
+    if p.get('kind') == 'predform_shared':
+        return run_predform_shared_case(p)
     if p.get('kind') == 'empty_unselected':
         return run_empty_unselected_case(p)
     if p.get('kind') == 'nextrule_nested':
